@@ -147,15 +147,6 @@ Qed.
 Theorem no_new_raise_numeric_key_refuted :
   exists a, run cdef no_opts a a = Ok ([], []) /\ run cdef Fcase a a = Err EValue /\ run cdef Fstrty a a = Err EValue.
 Proof. exists (VDict [(AInt 1, vi 5)]). repeat split; reflexivity. Qed.
-(* a bytes key (path printer TypeError, F5) hidden by the deeper-threshold shortcut, which key cleaning defeats *)
-Theorem no_new_raise_bytes_key_refuted :
-  exists a b r, run cdef no_opts a b = Ok r /\ run cdef Fcase a b = Err EType.
-Proof.
-  exists (VDict [(B "a", VList [vi 1]); (S "X", vi 1); (S "Y", vi 2)]),
-         (VDict [(B "a", VList [vi 2]); (S "x", vi 1); (S "y", vi 2)]).
-  eexists. split; vm_compute; reflexivity.
-Qed.
-
 (* ---- non-vacuity of the guards ---- *)
 Definition Fmix := mkOpts true true true None None [].      (* case + str/bytes + int/float *)
 Definition ex1 : value :=
